@@ -6,6 +6,7 @@ import (
 	"go/types"
 	"strconv"
 
+	"github.com/goghcrow/go-imports"
 	"golang.org/x/tools/go/ast/astutil"
 )
 
@@ -54,9 +55,28 @@ func (r *yieldRewriter) rewriteRanges(block *ast.BlockStmt) {
 					if tv, ok := r.pkg.TypeInfo().Types[n.X]; ok && tv.Value != nil {
 						// a constant bound takes the type of the iteration variable,
 						// e.g. var i uint8; for i = range 3
-						b, _ := tv.Type.(*types.Basic)
-						if b != nil && b.Kind() != types.Int && b.Info()&types.IsUntyped == 0 {
-							x = X.Call(X.Ident(b.Name()), n.X)
+						switch t := tv.Type.(type) {
+						case *types.Basic:
+							if t.Kind() != types.Int && t.Info()&types.IsUntyped == 0 {
+								x = X.Call(X.Ident(t.Name()), n.X)
+							}
+						case *types.Named:
+							// named integer type, declared at package level in this or an imported package
+							obj := t.Obj()
+							switch {
+							case obj.Pkg() == nil || obj.Parent() != obj.Pkg().Scope():
+							case obj.Pkg() == r.pkg.Types:
+								x = X.Call(X.Ident(obj.Name()), n.X)
+							default:
+								name := imports.ImportName(r.rewriter.file, obj.Pkg().Path(), obj.Pkg().Name())
+								switch name {
+								case "", "_":
+								case ".":
+									x = X.Call(X.Ident(obj.Name()), n.X)
+								default:
+									x = X.Call(X.PkgSelect(name, obj.Name()), n.X)
+								}
+							}
 						}
 					}
 					do(cstNewIntegerIter, x)
